@@ -1097,7 +1097,7 @@ def _check(rep, tier):
         gcfg = main_cfg(LATS_=["sc", "hex"], LATS1=["tet", "ort", "fcc", "bcc", "ohex"], MAXGEN=2, DUPS=True, invs=GROUP_INV,
                         ONLYC=[2, 3, 4, 6, 7, 9, 10, 12, 13, 15, 17, 19], ONLYH=[2, 3, 4, 6, 7, 9, 10, 11, 12, 14, 15, 16])
         g3cfg = None
-        tcfg = main_cfg(LATS_=["sc", "hex"], MAXGEN=2, TENSOR_LATS=["sc", "hex"], COMBOS="few", NGENERIC=1, MAXPAIRS=12, invs=TENSOR_INV,
+        tcfg = main_cfg(LATS_=["sc", "hex"], MAXGEN=2, TENSOR_LATS=["sc", "hex"], COMBOS="few", NGENERIC=1, MAXPAIRS=6, invs=TENSOR_INV,
                         ONLYC=[2, 3, 7, 12, 13, 15], ONLYH=[2, 3, 4, 7, 11, 14])
         bcfg = r4cfg = None
     f_g = pool.submit(run_model, "MC_PointGroupAlg.tla", gcfg, "c09_groups", W, True)
